@@ -294,10 +294,11 @@ def b2_static_run(carve):
                 if not any("impl(" in ast.unparse(d) for d in fn.decorator_list):
                     continue
                 n += 1
-                has_value_return = any(isinstance(x, ast.Return) and x.value is not None for x in ast.walk(fn))
+                # every path ends in `return <value>` or `raise` (an implementation that only raises NotSupportedError is a refusal)
+                bare_return = any(isinstance(x, ast.Return) and x.value is None for x in ast.walk(fn))
                 if (m.__name__.rsplit(".", 1)[1], fn.name) in EXHAUSTIVE_BY_OTHER_OBLIGATION:
                     continue
-                if falls_through(fn.body) or not has_value_return:
+                if falls_through(fn.body) or bare_return:
                     bad.append(f"{m.__name__.rsplit('.', 1)[1]}.{fn.name} (L{fn.lineno}): a path reaches the end of the implementation without returning a value")
     return _enum_outcome("every @impl function of every backend module returns a value (or raises) on every path", n, bad)
 
